@@ -1050,7 +1050,8 @@ pub fn sublist2(list: &Value, position_value: &Value) -> Value {
 pub fn sublist3(list: &Value, position_value: &Value, length_value: &Value) -> Value {
   if let Value::List(items) = list {
     if let Value::Number(length_number) = length_value {
-      if let Some(length) = length_number.to_usize() {
+      // length must be in the range [1..E]
+      if let Some(length) = length_number.to_usize().filter(|length| *length > 0) {
         if let Value::Number(position_number) = position_value {
           if position_number.is_positive() {
             if let Some(position) = position_number.to_usize() {
